@@ -1,3 +1,5 @@
 import PfVerif.Audit.Tool
 import PfVerif.Props.C03
+import PfVerif.Lemmas.C03Registry
 #audit_module PfVerif.Props.C03
+#audit_module_ns PfVerif.Lemmas.C03Registry PfVerif.C03Registry
